@@ -81,26 +81,20 @@ theorem C17_crlf_visible_text (cs : CharSpec) (hcs : CrlfSpec cs) (s : List Char
 
 /-! non-vacuity: a character table satisfying `CrlfSpec`, an input satisfying `CrlfSafe` on which
     `crlf` does something, and the excluded shape -/
-def C17_toySpec : CharSpec where
-  ws c := c = ' ' ∨ c = '\t'
-  punct c := c = ',' ∨ c = '!' ∨ c = '['
-  wordChar c := c.isAlphanum
-  uws c := c.isWhitespace
-  alnum c := c.isAlphanum
 
-example : CrlfSpec C17_toySpec := ⟨by decide, by decide, by decide, by decide⟩
+example : CrlfSpec toyCharSpec := ⟨by decide, by decide, by decide, by decide⟩
 example : CrlfSafe ['a', '\r', ' ', '-', '-', 'x', '\n', '[', '-', '\n', '-', ']', 'b', '\r', '\n', '\n'] := by decide
 example : crlf ['a', '\r', ' ', '-', '-', 'x', '\n', '[', '-', '\n', '-', ']', 'b', '\r', '\n', '\n'] =
     ['a', '\r', ' ', '-', '-', 'x', '\r', '\n', '[', '-', '\r', '\n', '-', ']', 'b', '\r', '\n', '\r', '\n'] := by decide
 example : ¬ CrlfSafe ['a', '\\', '\n'] := by decide
 /-- the law on a concrete input … -/
-example : (lex C17_toySpec (crlf ['a', '\n', '-', '-', 'x', '\n'])).map tokAbs =
+example : (lex toyCharSpec (crlf ['a', '\n', '-', '-', 'x', '\n'])).map tokAbs =
     [(.word, ['a']), (.newline, []), (.lineComment, []), (.newline, [])] := by
   simp [lex, lexFrom_cons, lexOne, crlf, crlfAux, tokAbs, crlfVolatile, singleKind, singleTable,
-    C17_toySpec, isAsciiDigit, lexFrom]
+    toyCharSpec, isAsciiDigit, lexFrom]
 /-- … and the side condition is needed: an escaped LF -/
-example : (lex C17_toySpec (crlf ['a', '\\', '\n'])).map tokAbs ≠ (lex C17_toySpec ['a', '\\', '\n']).map tokAbs := by
+example : (lex toyCharSpec (crlf ['a', '\\', '\n'])).map tokAbs ≠ (lex toyCharSpec ['a', '\\', '\n']).map tokAbs := by
   simp [lex, lexFrom_cons, lexOne, crlf, crlfAux, tokAbs, crlfVolatile, singleKind, singleTable,
-    C17_toySpec, isAsciiDigit, lexFrom]
+    toyCharSpec, isAsciiDigit, lexFrom]
 
 end Cook
